@@ -150,3 +150,42 @@ def run(ctx):
                        "the aggregated expression's value is folded without a null test: nulls are counted / collected / compared like values", c.loc())
             k += 1
     ctx.floor("C21.3", "evaluations of the aggregated expression", n3, 12)
+
+    # ---- clause 4: DISTINCT means distinct by value equality ----------------------------------------------------
+    # count / sum / avg / min / max / collect (DISTINCT) fold the distinct non-null values.  "Distinct" is Cypher value equality
+    # (`existing == &value`), the same in all six arms.  Deciding duplicates with the ORDER BY comparator (sort + dedup_by(order_compare))
+    # merges values that merely sort equal — 1 and 1.0, two NaNs — so count(DISTINCT x) disagrees with size(collect(DISTINCT x)).
+    from .. import tables
+    ctx.rule("C21.4", "every DISTINCT aggregate arm decides duplicates with a membership scan using value equality (`any(|e| e == &value)`), never with dedup* / the ordering comparator")
+    AGG = "nervusdb_query::ast::AggregateFunction"
+    agg = ctx.adt(AGG)
+    vnames = {v["discr"]: v["name"] for v in agg["variants"]}
+    n4 = 0
+    for i, b in sorted(F.bodies.items()):
+        if not (i == ROOT or b.root == ROOT):
+            continue
+        sw = tables.enum_switch(b, AGG, F)
+        if not sw or len(sw[1]) < 8:
+            continue
+        head, arms = sw[0], sw[1]
+        for dv, target in sorted(arms.items()):
+            name = vnames.get(dv, str(dv))
+            if "Distinct" not in name:
+                continue
+            n4 += 1
+            region = tables.dominated_region(b, target, head)
+            calls = [c for c in b.calls() if c.bb in region]
+            scans = []
+            for c in calls:
+                if c.name.split("::")[-1] == "any" and len(c.args) > 1:
+                    o = b.origin(op_local(c.args[1]))
+                    if o and o[0] == "agg" and o[1][1] == "closure":
+                        cb = F.bodies.get(o[1][2])
+                        if cb is not None and any(x.name.endswith("PartialEq>::eq") or x.name.endswith("PartialEq<&B> for &A>::eq") for x in cb.calls()):
+                            scans.append(c)
+            dedups = [c for c in calls if c.name.split("::")[-1].startswith("dedup")]
+            ctx.instance("C21.4", "%s arm: value-equality membership scans=%d, dedup* calls=%d" % (name, len(scans), len(dedups)))
+            ctx.oblige(bool(scans) and not dedups, "C21.4", "%s:distinct-not-by-value-equality" % name,
+                       "%s does not decide duplicates by value equality (%s): values that only sort equal (1 and 1.0, NaN and NaN) are merged or kept "
+                       "differently from the other DISTINCT aggregates" % (name, "uses " + dedups[0].name.split("::")[-1] if dedups else "no `any(== value)` scan"), b.file)
+    ctx.floor("C21.4", "DISTINCT aggregate arms", n4, 6)
